@@ -156,10 +156,11 @@ fn convert_http2_headers_to_http_format(
     };
 
     for header in headers {
-        let header_name_lower = header.name.to_lowercase();
-        if optional_list.contains(&header_name_lower.as_str()) {
+        // HTTP/2 field names are lower-case on the wire, the p0f lists are Title-Case
+        let listed = |list: &[&str]| list.iter().any(|l| l.eq_ignore_ascii_case(&header.name));
+        if listed(&optional_list) {
             headers_in_order.push(http::Header::new(&header.name).optional());
-        } else if skip_value_list.contains(&header_name_lower.as_str()) {
+        } else if listed(&skip_value_list) {
             headers_in_order.push(http::Header::new(&header.name));
         } else {
             headers_in_order
